@@ -406,9 +406,31 @@ pub fn run_batch<S: Sim>(sim: &S, opts: &Opts) -> BatchReport {
         opts.workers
     );
 
+    // watchdog: a run that never returns (a simulator bug, or code under test spinning without
+    // consuming virtual time) must not hang the check: report a harness error and exit 2
+    let slots: Vec<std::sync::atomic::AtomicU64> = (0..opts.workers).map(|_| AtomicU64::new(u64::MAX)).collect();
+    let slot_started: Vec<std::sync::atomic::AtomicU64> = (0..opts.workers).map(|_| AtomicU64::new(0)).collect();
+    let finished = std::sync::atomic::AtomicBool::new(false);
+    let worker_ids = AtomicU64::new(0);
     std::thread::scope(|scope| {
+        scope.spawn(|| {
+            while !finished.load(Ordering::Relaxed) {
+                std::thread::sleep(std::time::Duration::from_millis(250));
+                let now = t0.elapsed().as_millis() as u64;
+                for (w, s) in slots.iter().enumerate() {
+                    let idx = s.load(Ordering::Relaxed);
+                    let st = slot_started[w].load(Ordering::Relaxed);
+                    if idx != u64::MAX && now.saturating_sub(st) > 180_000 {
+                        eprintln!("HARNESS-ERROR: run index {idx} (seed {}) did not finish within 180 s of wall time", mix(opts.seed, idx));
+                        std::process::exit(2);
+                    }
+                }
+            }
+        });
+        let mut handles = Vec::new();
         for _ in 0..opts.workers {
-            scope.spawn(|| {
+            handles.push(scope.spawn(|| {
+                let my = worker_ids.fetch_add(1, Ordering::Relaxed) as usize;
                 let ctx = ExecCtx {
                     known: &known_keys,
                     keep_log: false,
@@ -432,6 +454,8 @@ pub fn run_batch<S: Sim>(sim: &S, opts: &Opts) -> BatchReport {
                     if t0.elapsed().as_secs_f64() > deadline {
                         break;
                     }
+                    slot_started[my].store(t0.elapsed().as_millis() as u64, Ordering::Relaxed);
+                    slots[my].store(i, Ordering::Relaxed);
                     let run_seed = mix(opts.seed, i);
                     let sub = (i as usize) % nsub;
                     let mut rng = Rng::new(run_seed);
@@ -463,9 +487,14 @@ pub fn run_batch<S: Sim>(sim: &S, opts: &Opts) -> BatchReport {
                         }
                     }
                 }
+                slots[my].store(u64::MAX, Ordering::Relaxed);
                 accs.lock().unwrap().push(acc);
-            });
+            }));
         }
+        for h in handles {
+            let _ = h.join();
+        }
+        finished.store(true, Ordering::Relaxed);
     });
 
     let accs = accs.into_inner().unwrap();
@@ -665,6 +694,14 @@ pub fn run_batch<S: Sim>(sim: &S, opts: &Opts) -> BatchReport {
         exit_code
     );
     BatchReport { exit_code }
+}
+
+/// Print the scenario planned for run `i` of a batch (debug aid).
+pub fn print_plan<S: Sim>(sim: &S, seed: u64, i: u64) {
+    let nsub = sim.sub_batches().len().max(1);
+    let mut rng = Rng::new(mix(seed, i));
+    let sc = sim.plan(&mut rng, (i as usize) % nsub);
+    println!("{}", serde_json::to_string(&json!({"property": sim.property(), "scenario": sc})).unwrap());
 }
 
 // ------------------------------------------------------------------------------------------------
